@@ -142,6 +142,12 @@ func (fc *FnCtx) doCall(instr ssa.Instruction, c *ssa.CallCommon, pos token.Pos)
 		return nv
 	}
 	fc.hookAnchor("call", name, instr, args, c)
+	if len(fc.con.Ats) > 0 {
+		// snapshot (the heap object is updated in place by the call's effects)
+		fc.preCallHeap = fc.heap
+		fc.heap = fc.heap.clone()
+		fc.preCallGhost = fc.ghost
+	}
 	con := fc.eng.cs.Funcs[name]
 	var res Val
 	if con != nil {
